@@ -11,6 +11,7 @@ import SlocModel.Driver.Cache
 import SlocModel.Driver.GitDiff
 import SlocModel.Driver.Gate
 import SlocModel.Driver.Report
+import SlocModel.Driver.PathSpelling
 open SlocModel.Driver
 
 def dispatch (line : String) : String :=
@@ -56,6 +57,8 @@ def dispatch (line : String) : String :=
       | "breakdown" => handleBreakdown args
       | "escape" => handleEscape args
       | "owner" => handleOwner args
+      | "target" => handleTarget args
+      | "match-key" => handleMatchKey args
       | _ => some "bad-op"
     r.getD "bad-args"
   | [] => "bad-op"
